@@ -56,10 +56,10 @@ Definition ensure_1d {V : Type} : handler V :=
 
 Ltac oracle_rw :=
   repeat match goal with
-         | H : ?f ?x = Some _ |- context [?f ?x] => rewrite H
-         | H : ?f ?x = None |- context [?f ?x] => rewrite H
-         | H : ?b = true |- context [?b] => rewrite H
-         | H : ?b = false |- context [?b] => rewrite H
+         | H : _ = Some _ |- _ => rewrite H
+         | H : _ = None |- _ => rewrite H
+         | H : _ = true |- _ => rewrite H
+         | H : _ = false |- _ => rewrite H
          end.
 
 Definition iter_env {V : Type} (o : outcome V) : option (env V) :=
@@ -202,8 +202,8 @@ Section GniTie.
          gni_names gni_env0 gni_args params_get_next_imf
          gni_split gni_pre gni_cond gni_body gni_post
          String.eqb Ascii.eqb Bool.eqb fst snd nth_error andb negb orb].
-  Ltac ev1 := ev; rewrite ?Nat.add_1_r; repeat (progress oracle_rw; ev).
-  (* statement by statement: the continuation stays folded as [exec_list rest fuel env] *)
+  Ltac ev1 := ev; repeat (progress oracle_rw; ev).
+  (* statement by statement: the continuation stays folded as [K rest fuel env] *)
   Ltac steps :=
     set (K := exec_list gni_prims);
     assert (K_cons : forall s t f e, K (s :: t) f e =
@@ -253,20 +253,17 @@ Section GniTie.
       let e := gni_head eo xo p n true true junk in
       if negb (is_fixed method) && (max_iters <? n)%nat
       then exec gni_prims gni_body fb e = Raise "EMDSiftCovergeError"
-      else match iter_env (exec gni_prims gni_body fb e) with
-           | None => False
-           | Some e' =>
-               let junk' := fun x => lookup x e' in
-               match envs_of p with
-               | None => e' = gni_head eo xo p (S n) false (1 <? S n)%nat junk'
-               | Some (u, l) =>
-                   let avg := vavg u l in
-                   let x1 := vsub p avg in
-                   if sfires (S n) p x1 u l
-                   then e' = gni_head eo xo x1 (S n) false true junk'
-                   else e' = gni_head eo xo (vsub p (vstep avg)) (S n) true true junk'
-               end
-           end.
+      else exists e', iter_env (exec gni_prims gni_body fb e) = Some e' /\
+             let junk' := fun x => lookup x e' in
+             match envs_of p with
+             | None => e' = gni_head eo xo p (n + 1) false (1 <? n + 1)%nat junk'
+             | Some (u, l) =>
+                 let avg := vavg u l in
+                 let x1 := vsub p avg in
+                 if sfires (n + 1)%nat p x1 u l
+                 then e' = gni_head eo xo x1 (n + 1) false true junk'
+                 else e' = gni_head eo xo (vsub p (vstep avg)) (n + 1) true true junk'
+             end.
     Proof.
       intros fb eo xo p n junk e. subst e.
       unfold envs_of, gni_head. rewrite exec_spine. cbv [spine gni_body gni_split].
@@ -276,20 +273,25 @@ Section GniTie.
         + rewrite (log_test_never_masks_raise _ _ Hq) in Hlt. discriminate.
         + steps. reflexivity.
         + destruct (env_u p) as [u|] eqn:Eu; destruct (env_l p) as [l|] eqn:El;
-            [destruct (stop_sd p (vsub p (vavg u l))) eqn:Es| | |]; steps; reflexivity.
+            [destruct (stop_sd p (vsub p (vavg u l))) eqn:Es| | |];
+            (eexists; split; [steps; reflexivity | ev; reflexivity]).
         + destruct (env_u p) as [u|] eqn:Eu; destruct (env_l p) as [l|] eqn:El;
-            [destruct (stop_sd p (vsub p (vavg u l))) eqn:Es| | |]; steps; reflexivity.
+            [destruct (stop_sd p (vsub p (vavg u l))) eqn:Es| | |];
+            (eexists; split; [steps; reflexivity | ev; reflexivity]).
       - (* rilling *)
         destruct (max_iters <? n)%nat eqn:Hlt; destruct (n =? 3 * max_iters / 4)%nat eqn:Hq.
         + rewrite (log_test_never_masks_raise _ _ Hq) in Hlt. discriminate.
         + steps. reflexivity.
         + destruct (env_u p) as [u|] eqn:Eu; destruct (env_l p) as [l|] eqn:El;
-            [destruct (stop_ril u l) eqn:Es| | |]; steps; reflexivity.
+            [destruct (stop_ril u l) eqn:Es| | |];
+            (eexists; split; [steps; reflexivity | ev; reflexivity]).
         + destruct (env_u p) as [u|] eqn:Eu; destruct (env_l p) as [l|] eqn:El;
-            [destruct (stop_ril u l) eqn:Es| | |]; steps; reflexivity.
+            [destruct (stop_ril u l) eqn:Es| | |];
+            (eexists; split; [steps; reflexivity | ev; reflexivity]).
       - (* fixed *)
         destruct (env_u p) as [u|] eqn:Eu; destruct (env_l p) as [l|] eqn:El;
-          [destruct (S n =? max_iters)%nat eqn:Es| | |]; steps; reflexivity.
+          [destruct (n + 1 =? max_iters)%nat eqn:Es| | |];
+          (eexists; split; [steps; reflexivity | ev; reflexivity]).
     Qed.
   End Fixed.
 End GniTie.
